@@ -514,3 +514,153 @@ func c19ExcludeVerdict(c *Ctx, call ssa.CallInstruction) {
 		c.bad(construct, call.Pos(), strings.Join(bad, "; ")+": whether an exclude value is reported no longer depends on whether some candidate contains it")
 	}
 }
+
+// equalsTruth: the boolean value is true only when an Equals() of two raw YAML values was found true: the result of the
+// interface call itself, or a result of a function of the module each of whose returns yields false, the result of such
+// a call, or true from a block that is only reached on the true edge of one.
+func equalsTruth(v ssa.Value, depth int) bool {
+	if depth > 3 {
+		return false
+	}
+	switch x := v.(type) {
+	case *ssa.Call:
+		if x.Call.IsInvoke() {
+			return x.Call.Method.Name() == "Equals"
+		}
+		return resultEqualsTruth(staticCallee(&x.Call), 0, depth+1)
+	case *ssa.Extract:
+		if call, ok := x.Tuple.(*ssa.Call); ok && !call.Call.IsInvoke() {
+			return resultEqualsTruth(staticCallee(&call.Call), x.Index, depth+1)
+		}
+	}
+	return false
+}
+
+func resultEqualsTruth(f *ssa.Function, idx int, depth int) bool {
+	if f == nil || !inModule(f) || len(f.Blocks) == 0 {
+		return false
+	}
+	for _, b := range f.Blocks {
+		ret, ok := b.Instrs[len(b.Instrs)-1].(*ssa.Return)
+		if !ok {
+			continue
+		}
+		if idx >= len(ret.Results) {
+			return false
+		}
+		r := ret.Results[idx]
+		if k, ok := r.(*ssa.Const); ok && k.Value != nil {
+			if k.Value.String() == "false" {
+				continue
+			}
+			if k.Value.String() == "true" {
+				under := false
+				for ifi, outcome := range controllingConds(b) {
+					if outcome && equalsTruth(ifi.Cond, depth) {
+						under = true
+					}
+				}
+				if under {
+					continue
+				}
+			}
+			return false
+		}
+		if !equalsTruth(r, depth) {
+			return false
+		}
+	}
+	return true
+}
+
+// c19DuplicateVerdict: in the function that looks for duplicates in a row, the report depends on an equality test
+// having succeeded and on nothing else but loops and nil tests, and the loop over the earlier values is left early
+// only after such a success.
+func c19DuplicateVerdict(c *Ctx, dup *ssa.Function) {
+	p := c.P
+	construct := FuncName(dup) + "|duplicate reported iff Equals() an earlier value"
+	var reports []ssa.CallInstruction
+	for _, name := range []string{"(*RuleBase).Errorf", "(*RuleBase).Error"} {
+		reports = append(reports, findCalls(dup, name)...)
+	}
+	if len(reports) == 0 {
+		c.bad(construct, dup.Pos(), "no diagnostic is emitted")
+		return
+	}
+	heads := map[*ssa.BasicBlock]bool{}
+	for _, h := range loopHeaders(dup) {
+		heads[h] = true
+	}
+	var bad []string
+	for _, rep := range reports {
+		under := false
+		for ifi, outcome := range controllingConds(rep.Block()) {
+			switch {
+			case equalsTruth(ifi.Cond, 0):
+				if outcome {
+					under = true
+				} else {
+					bad = append(bad, "the report at "+p.Pos(rep.Pos())+" is made where the equality test failed")
+				}
+			case heads[ifi.Block()]:
+			default:
+				if _, _, isNil := nilTest(ifi); isNil {
+					continue
+				}
+				bad = append(bad, "the report at "+p.Pos(rep.Pos())+" also depends on the condition at "+p.Pos(branchPos(ifi.Block())))
+			}
+		}
+		if !under {
+			bad = append(bad, "the report at "+p.Pos(rep.Pos())+" does not depend on an equality test having succeeded")
+		}
+	}
+	// the loop in which values are compared directly: left early only after a success
+	eachInstr(dup, func(b *ssa.BasicBlock, _ int, in ssa.Instruction) {
+		cv, ok := in.(*ssa.Call)
+		if !ok || !cv.Call.IsInvoke() || cv.Call.Method.Name() != "Equals" {
+			return
+		}
+		var hdr *ssa.BasicBlock
+		var body map[*ssa.BasicBlock]bool
+		for _, h := range loopHeaders(dup) {
+			lb := naturalLoop(h)
+			if lb[b] && (body == nil || len(lb) < len(body)) {
+				hdr, body = h, lb
+			}
+		}
+		if hdr == nil {
+			return
+		}
+		for _, x := range dup.Blocks {
+			if !body[x] || x == hdr {
+				continue
+			}
+			for i, s := range x.Succs {
+				if body[s] {
+					continue
+				}
+				if _, isPanic := s.Instrs[len(s.Instrs)-1].(*ssa.Panic); isPanic {
+					continue
+				}
+				if ifi, ok := x.Instrs[len(x.Instrs)-1].(*ssa.If); ok && ifi.Cond == ssa.Value(cv) && i == 0 {
+					continue
+				}
+				matched := false
+				for ifi, outcome := range controllingConds(x) {
+					if ifi.Cond == ssa.Value(cv) && outcome {
+						matched = true
+					}
+				}
+				if !matched {
+					bad = append(bad, "the loop over the earlier values is left at "+p.Pos(branchPos(x))+" without an equal value having been found")
+				}
+			}
+		}
+	})
+	sort.Strings(bad)
+	if len(bad) == 0 {
+		c.ok(construct, reports[0].Pos(), "reported exactly where an earlier value was found equal")
+	} else {
+		c.bad(construct, reports[0].Pos(), strings.Join(bad, "; "))
+	}
+}
